@@ -519,6 +519,8 @@ class Madgwick:
         self.gain_imu: float = kwargs.get('gain_imu', 0.033)
         self.gain_marg: float = kwargs.get('gain_marg', 0.041)
         self.gain: float = kwargs.get('beta')  # Setting gain with `beta` will be removed in the future.
+        # Without an explicit gain each update method falls back to the default of its own architecture
+        self._explicit_gain: bool = self.gain is not None or 'gain' in kwargs
         if self.gain is None:
             self.gain: float = kwargs.get('gain', self.gain_imu if self.mag is None else self.gain_marg)
 
@@ -635,7 +637,7 @@ class Madgwick:
                 gradient = J.T@f                                    # (eq. 34)
                 if np.linalg.norm(gradient) > 0:                    # Null at the antipodal stationary point
                     gradient /= np.linalg.norm(gradient)
-                    qDot -= self.gain*gradient                      # (eq. 33)
+                    qDot -= (self.gain if self._explicit_gain else self.gain_imu)*gradient   # (eq. 33)
         q_new = q + qDot*dt                                         # (eq. 13)
         q_new /= np.linalg.norm(q_new)
         return q_new
@@ -725,7 +727,7 @@ class Madgwick:
                 gradient = J.T@f                                    # (eq. 34)
                 if np.linalg.norm(gradient) > 0:                    # Null at the antipodal stationary point
                     gradient /= np.linalg.norm(gradient)
-                    qDot -= self.gain*gradient                      # (eq. 33)
+                    qDot -= (self.gain if self._explicit_gain else self.gain_marg)*gradient  # (eq. 33)
         q_new = q + qDot*dt                                         # (eq. 13)
         q_new /= np.linalg.norm(q_new)
         return q_new
